@@ -9,16 +9,20 @@ From P Require Import Comb Obj Fields Idem Sections Rec.
 Import ListNotations.
 Open Scope string_scope.
 
-Inductive item := Lit (l : str) | Rec (k : string) (vals : list value).
+(** [Rec]: the reader keeps a value for every field of the record; [RecK]: the reader keeps as many
+    values as were written (it trims the blanks that follow them) *)
+Inductive item := Lit (l : str) | Rec (k : string) (vals : list value) | RecK (k : string) (vals : list value).
 
 Section WithTable.
 Variable T : table.
 Notation sp := (sp T).
 
-Definition render1 (it : item) : res str := match it with Lit l => Ok l | Rec k vals => wline T k vals end.
+Definition render1 (it : item) : res str := match it with Lit l => Ok l | Rec k vals | RecK k vals => wline T k vals end.
 Definition render (p : list item) : res file := mapM render1 p.
-Definition citem (it : item) : item := match it with Lit l => Lit l | Rec k vals => Rec k (cvals (sp k) vals) end.
-Definition istable (it : item) : Prop := match it with Lit _ => True | Rec k vals => all_stable (sp k) vals end.
+Definition kept (specs : list fspec) (vals : list value) : list value := firstn (length vals) (cvals specs vals).
+Definition citem (it : item) : item :=
+  match it with Lit l => Lit l | Rec k vals => Rec k (cvals (sp k) vals) | RecK k vals => RecK k (kept (sp k) vals) end.
+Definition istable (it : item) : Prop := match it with Lit _ => True | Rec k vals | RecK k vals => all_stable (sp k) vals end.
 
 Lemma render_app a b : render (a ++ b)%list = (do x <- render a; do y <- render b; Ok (x ++ y)%list).
 Proof.
@@ -48,6 +52,44 @@ Proof.
   rewrite (record_rewrite_fixpoint _ _ _ E S). reflexivity.
 Qed.
 
+(** a record whose trailing blanks the reader trims: written again it is the same line *)
+Lemma write_fields_firstn specs : forall vals l n, write_fields specs vals = Ok l -> write_fields specs (firstn n vals) = Ok (firstn n l).
+Proof.
+  induction specs as [|f fs IH]; intros vals l n W.
+  - cbn in W. inv_ok W. destruct (firstn n vals); destruct n; reflexivity.
+  - destruct vals as [|v vs]; [cbn in W; inv_ok W; destruct n; reflexivity|].
+    cbn [write_fields] in W. destruct (fmt_field f v) as [s|] eqn:E; cbn [bind] in W; [|discriminate].
+    destruct (write_fields fs vs) as [r|] eqn:R; cbn [bind] in W; [|discriminate]. inv_ok W.
+    destruct n as [|n]; [reflexivity|]. cbn [firstn write_fields]. rewrite E. cbn [bind]. rewrite (IH vs r n R). reflexivity.
+Qed.
+Lemma kept_fields specs vals l : write_fields specs vals = Ok l -> all_stable specs vals -> write_fields specs (kept specs vals) = Ok l.
+Proof.
+  intros W S. unfold kept. rewrite (write_fields_firstn _ _ _ _ (record_rewrite specs vals l W S)).
+  destruct (write_fields_widths _ _ _ W) as [_ B]. f_equal.
+  destruct (Nat.le_ge_cases (length vals) (length specs)) as [H|H].
+  - rewrite Nat.min_r in B by exact H. rewrite <- B, firstn_app, firstn_all, Nat.sub_diag. cbn [firstn]. apply app_nil_r.
+  - rewrite Nat.min_l in B by exact H. rewrite B, skipn_all. cbn [blanks_for map]. rewrite app_nil_r. apply firstn_all2. lia.
+Qed.
+Lemma all_stable_kept specs : forall vals l, write_fields specs vals = Ok l -> all_stable specs vals -> all_stable specs (kept specs vals).
+Proof.
+  intros vals l W S. unfold kept. pose proof (all_stable_cvals specs vals l W S) as A.
+  revert A. generalize (cvals specs vals). generalize (length vals). clear.
+  induction specs as [|f fs IH]; intros n c A; [destruct (firstn n c); exact I|].
+  destruct c as [|v c]; [destruct n; exact I|]. destruct n as [|n]; [exact I|]. cbn [firstn all_stable] in *. destruct A as [A1 A2].
+  split; [exact A1|apply IH; exact A2].
+Qed.
+Lemma wlineK_rewrite k vals l : wline T k vals = Ok l -> all_stable (sp k) vals -> wline T k (kept (sp k) vals) = Ok l.
+Proof.
+  unfold wline, write_values. fold (sp k). intros W S. destruct (write_fields (sp k) vals) as [fs|] eqn:E; cbn [bind] in W; [|discriminate].
+  rewrite (kept_fields _ _ _ E S). exact W.
+Qed.
+Lemma wlineK_fixpoint k vals l : wline T k vals = Ok l -> all_stable (sp k) vals ->
+  wline T k (kept (sp k) (kept (sp k) vals)) = wline T k (kept (sp k) vals).
+Proof.
+  intros W S. unfold wline, write_values in *. fold (sp k) in *. destruct (write_fields (sp k) vals) as [fs|] eqn:E; cbn [bind] in W; [|discriminate].
+  rewrite (kept_fields _ _ _ (kept_fields _ _ _ E S) (all_stable_kept _ _ _ E S)), (kept_fields _ _ _ E S). reflexivity.
+Qed.
+
 Theorem render_rewrite p : forall ls, render p = Ok ls -> Forall istable p ->
   exists ls', render (map citem p) = Ok ls' /\ Forall2 lpad ls ls'.
 Proof.
@@ -56,10 +98,12 @@ Proof.
   - rewrite render_cons in W. destruct (render1 i) as [l|] eqn:E; cbn [bind] in W; [|discriminate].
     destruct (render p) as [r|] eqn:R; cbn [bind] in W; [|discriminate]. inv_ok W.
     inversion S as [|? ? S1 S2]; subst. destruct (IH r eq_refl S2) as [r' [R' F]].
-    cbn [map]. rewrite render_cons. destruct i as [x|k vals].
+    cbn [map]. rewrite render_cons. destruct i as [x|k vals|k vals].
     + cbn [citem render1] in *. inv_ok E. rewrite R'. cbn [bind]. eexists. split; [reflexivity|]. constructor; [left; reflexivity|exact F].
     + cbn [citem render1 istable] in *. destruct (wline_rewrite k vals l E S1) as [l' [E' P]]. rewrite E', R'. cbn [bind].
       eexists. split; [reflexivity|]. constructor; assumption.
+    + cbn [citem render1 istable] in *. rewrite (wlineK_rewrite k vals l E S1), R'. cbn [bind].
+      eexists. split; [reflexivity|]. constructor; [left; reflexivity|exact F].
 Qed.
 Theorem render_fixpoint p : forall ls, render p = Ok ls -> Forall istable p ->
   render (map citem (map citem p)) = render (map citem p).
@@ -68,7 +112,8 @@ Proof.
   rewrite render_cons in W. destruct (render1 i) as [l|] eqn:E; cbn [bind] in W; [|discriminate].
   destruct (render p) as [r|] eqn:R; cbn [bind] in W; [|discriminate]. inv_ok W.
   inversion S as [|? ? S1 S2]; subst. cbn [map]. rewrite !render_cons. rewrite (IH r eq_refl S2).
-  destruct i as [x|k vals]; [reflexivity|]. cbn [citem render1 istable] in *. rewrite (wline_fixpoint k vals l E S1). reflexivity.
+  destruct i as [x|k vals|k vals]; [reflexivity| |]; cbn [citem render1 istable] in *;
+    [rewrite (wline_fixpoint k vals l E S1)|rewrite (wlineK_fixpoint k vals l E S1)]; reflexivity.
 Qed.
 
 (** ** building blocks of the writers as programs *)
